@@ -185,7 +185,16 @@ func (c *Ctx) Violate(prop, sig, what string, replay interface{}) {
 			return // one witness per signature is enough
 		}
 	}
-	c.Stats.Violations = append(c.Stats.Violations, Violation{prop, sig, what, replay})
+	v := Violation{prop, sig, what, replay}
+	c.Stats.Violations = append(c.Stats.Violations, v)
+	// also on disk at once: a violation found before the code under test takes the process down
+	// must not be lost with it (the check reads this file when the engine did not finish)
+	if b, err := json.Marshal(v); err == nil && c.Out != "" {
+		if f, err := os.OpenFile(filepath.Join(c.Out, "violations.jsonl"), os.O_APPEND|os.O_CREATE|os.O_WRONLY, 0644); err == nil {
+			f.Write(append(b, '\n'))
+			f.Close()
+		}
+	}
 }
 
 func (c *Ctx) Note(format string, a ...interface{}) {
